@@ -302,6 +302,11 @@ def main(argv=None):
             # that clause's business); obligations raised on the way (no-raise, invariants, frames) are confirmed by any failing clause
             own_clause = name if name.startswith(("post.", "raises[")) else None
             confirmed = next((rp for rp in o["replays"] if rp.get("failed") and (own_clause is None or any(own_clause == f or own_clause in str(f) for f in rp["failed"]))), None)
+            if confirmed is None and r["unsupported"]:
+                # the function is partly outside the supported subset (some of its paths could not be executed): the unmodelled parts
+                # are abstracted, and only refutations that replay on the real code are trusted
+                undecided.append(f"{full}: fails in the engine, but the function is partly outside the supported subset and no replay confirms it on the real code")
+                continue
             if confirmed is None and o.get("imprecise"):
                 # every failing path went through a loop cut without invariant (over-approximation): not a verdict
                 undecided.append(f"{full}: fails only on over-approximated paths (loop without invariant, uninterpreted library model) and no replay confirms it")
